@@ -107,6 +107,9 @@ func runShard(bin, id string, pc propCfg, tier string, tc tierCfg, k int, seed i
 	if tier == "thorough" {
 		shrink = "60s"
 	}
+	if s := os.Getenv("VERIF_SHRINK"); s != "" {
+		shrink = s // sensitivity runs only need the verdict
+	}
 	args := []string{
 		"-test.run", "^Test" + id + "$", "-test.timeout", fmt.Sprintf("%ds", timeout), "-test.count", "1",
 		"-rapid.checks", strconv.Itoa(tc.Checks), "-rapid.seed", strconv.FormatInt(rseed, 10),
